@@ -10,7 +10,7 @@ compareDocumentPosition) compared with the model.  States are merged on a canoni
 + full dump of the implementation's pointers (children, parentNode incl. stale ones, ownerDocument,
 attribute maps, whether the child list has been materialised).
 """
-import itertools, operator
+import itertools, operator, resource
 from vp import core
 from vp.refs import dom_tree_c06 as M
 from vp.refs.dom_tree_c06 import D, E, T, F, NA
@@ -41,6 +41,17 @@ ASSUMPTIONS = [
 ]
 
 TAGS = ('p', 'q')
+TLIMIT = 2.0          # seconds per real call group; an endless parent walk also grows a list
+MEMLIMIT = 6 << 30    # address-space cap of every worker (a blow-up must fail fast)
+
+
+def _rlimit():
+    try:
+        soft, hard = resource.getrlimit(resource.RLIMIT_AS)
+        if soft == resource.RLIM_INFINITY or soft > MEMLIMIT:
+            resource.setrlimit(resource.RLIMIT_AS, (MEMLIMIT, hard))
+    except Exception:
+        pass
 
 
 # ---------------------------------------------------------------------------------------------
@@ -354,7 +365,9 @@ def differs(res_i, obs, res_m, r, strict):
     tp = r.tree_parent()
     par = obs['par']
     for c, L in tp.items():
-        want = L if strict else r.par[c]
+        want = r.par[c]
+        if strict and want != L:
+            raise RuntimeError('model invariant broken: node %d listed by %d carries %r' % (c, L, want))
         if par[c] != want:
             return 'parentNode of node %d (listed by node %d) is %r, model %r' % (c, L, par[c], want)
     return ''
@@ -401,7 +414,7 @@ def judge_transition(scn, history, r0=None):
     if r0 is None:
         r0 = model(scn, prefix)
     im = build(scn, prefix)
-    with core.time_limit(10.0):
+    with core.time_limit(TLIMIT):
         try:
             res_i = im.apply(ev)
         except core.Timeout:
@@ -480,7 +493,7 @@ def view_queries(r):
     return tp, conts, nav, pairs
 
 
-def model_views(r, q, topmost=False):
+def model_views(r, q, dev=0):
     tp, conts, nav, pairs = q
     kids = r.kids
     v = []
@@ -494,19 +507,32 @@ def model_views(r, q, topmost=False):
     for c in conts:
         for tag in TAGS:
             v.append(r.bytag(c, tag))
-    if topmost:
-        for a, b in pairs:
-            v.append(r.compare_topmost(a, b))
-    else:
-        for a, b in pairs:
-            v.append(r.compare(a, b, tp))
+    ptr = r.par if dev & M.DETACHED_KEEPS_PARENT else r.clean_pointers(tp)
+    topmost = bool(dev & M.COMPARE_TOPMOST_ANCESTOR)
+    for a, b in pairs:
+        v.append(r.compare(a, b, ptr, topmost))
     return v
 
 
-def impl_views(im, q):
+def endless(par):
+    """nodes whose real parentNode chain never ends (a call that walks it would not return)"""
+    bad = set()
+    for n in range(len(par)):
+        seen = set()
+        y = n
+        while y is not None and y not in seen:
+            seen.add(y)
+            y = par[y]
+        if y is not None:
+            bad.add(n)
+    return bad
+
+
+def impl_views(im, q, par):
     tp, conts, nav, pairs = q
     N = im.nodes
     ids = im.ids
+    bad = endless(par)
 
     def idx(o):
         return None if o is None else ids.get(id(o), '?')
@@ -529,7 +555,10 @@ def impl_views(im, q):
         for tag in TAGS:
             v.append(guard(lambda: [idx(e) for e in N[c].getElementsByTagName(tag)]))
     for a, b in pairs:
-        v.append(guard(lambda: N[a].compareDocumentPosition(N[b])))
+        if a in bad or b in bad:
+            v.append('cycle')       # the parentNode chain is a cycle: compareDocumentPosition would walk it forever
+        else:
+            v.append(guard(lambda: N[a].compareDocumentPosition(N[b])))
     return v
 
 
@@ -543,14 +572,15 @@ def view_labels(q):
     return lab
 
 
-def judge_state(scn, history, r=None):
+def judge_state(scn, history, r=None, demo=False):
     if r is None:
         r = model(scn, history)
     im = build(scn, history)
     q = view_queries(r)
-    with core.time_limit(10.0):
+    par = im.observe()['par']
+    with core.time_limit(TLIMIT):
         try:
-            vi = impl_views(im, q)
+            vi = impl_views(im, q, par)
         except core.Timeout:
             vi = ['timeout']
     vm = model_views(r, q)
@@ -564,20 +594,35 @@ def judge_state(scn, history, r=None):
     got = {l: i for l, m, i in diff[:12]}
     tree = readable_model(None, r)
     tree.pop('result')
-    if vi == model_views(r, q, topmost=True):
-        out.update(verdict='known', fids=[M.DEV_NAMES[M.COMPARE_TOPMOST_ANCESTOR]],
-                   detail='%d compareDocumentPosition answers differ from the tree order; all equal the published '
-                          'algorithm (first common ancestor searched from the root); tree %s' % (len(diff), tree),
-                   expected=exp, observed=got)
-        return out
-    out.update(verdict='violation', detail='derived views disagree with the model in state %s' % (tree,),
+    stale = {n: p for n, p in enumerate(par) if p is not None and q[0].get(n) != p and r.kind[n] != F}
+    note = ''
+    if demo and 'cycle' in vi:
+        a, b = [pr for pr, x in zip(q[3], vi[-len(q[3]):]) if x == 'cycle'][0]
+        try:
+            with core.time_limit(1.0):
+                note = '; real call %d.compareDocumentPosition(%d) returned %r' % (
+                    a, b, im.nodes[a].compareDocumentPosition(im.nodes[b]))
+        except core.Timeout:
+            note = '; real call %d.compareDocumentPosition(%d) did not return within 1 s' % (a, b)
+        except MemoryError:
+            note = '; real call %d.compareDocumentPosition(%d) ran out of memory' % (a, b)
+    for dev, sub in subsets(M.VIEW):
+        if vi == model_views(r, q, dev):
+            out.update(verdict='known', fids=[M.DEV_NAMES[f] for f in sub],
+                       detail='%d derived-view answers differ from the tree; all equal the model under %s; tree %s; '
+                              'parentNode of nodes no element lists: %s%s'
+                              % (len(diff), '+'.join(M.DEV_NAMES[f] for f in sub), tree, stale, note),
+                       expected=exp, observed=got)
+            return out
+    out.update(verdict='violation', detail='derived views disagree with the model in state %s; parentNode of nodes no '
+                                           'element lists: %s%s' % (tree, stale, note),
                expected=exp, observed=got)
     return out
 
 
 def canonical_key(scn, r, obs):
     blob = repr((scn.name, r.dump(), obs['kids'], obs['attrs'], obs['par'], obs['owner'], obs['mat'], obs['name']))
-    return int.from_bytes(core.hashlib.blake2b(blob.encode('utf-8', 'backslashreplace'), digest_size=10).digest(), 'big')
+    return int.from_bytes(core.hashlib.blake2b(blob.encode('utf-8', 'backslashreplace'), digest_size=8).digest(), 'big')
 
 
 # ---------------------------------------------------------------------------------------------
@@ -588,10 +633,11 @@ def _hist(case):
 
 
 def replay(case):
+    _rlimit()
     scn = SCENARIOS[case['scn']]
     history = _hist(case)
     if case.get('check') == 'state':
-        j = judge_state(scn, history)
+        j = judge_state(scn, history, demo=True)
     else:
         j = judge_transition(scn, history)
         if j['verdict'] == 'ok':
@@ -614,6 +660,7 @@ def replay(case):
 def expand_chunk(item):
     """item = (scenario name, [history, ...], expand?, seed) -> (Report, [(key, history), ...])"""
     name, hists, expand, seed = item
+    _rlimit()
     scn = SCENARIOS[name]
     rep = core.Report()
     succ = {}
